@@ -521,10 +521,22 @@ namespace plan
             viol("P3", "P3.overlap", "atoms " + aname(*v[i].a) + " [" + vtext(v[i].st) + "," + vtext(v[i].en) + ") and " + aname(*v[j].a) + " [" + vtext(v[j].st) + "," + vtext(v[j].en) + ") overlap on the same state variable");
         }
     }
-    std::map<ratio::item *, mpq_class> cap_of;
+    std::map<ratio::item *, Val> cap_of;
     for (size_t i = 0; i < m.rr_names.size(); ++i)
       if (ratio::item *it = resolve(top, none, {m.rr_names[i]}))
-        cap_of[it] = m.rr_caps[i];
+      { // the capacity as given: a constant c, or c - x at the reported value of x
+        Val cv;
+        cv.r = m.rr_caps[i];
+        if (!m.rr_cap_var[i].empty())
+        {
+          Val xv;
+          if (!num(top, none, {m.rr_cap_var[i]}, xv))
+            continue;
+          cv.r -= xv.r;
+          cv.e -= xv.e;
+        }
+        cap_of[it] = cv;
+      }
     for (auto &p : on_rr)
     {
       auto cit = cap_of.find(p.first);
@@ -543,10 +555,9 @@ namespace plan
             sum.e += v[j].amount.e;
           }
         cnt.inc("p4.pulses");
-        Val cap;
-        cap.r = cit->second;
+        const Val &cap = cit->second;
         if (vcmp(sum, cap) > 0)
-          viol("P4", "P4.capacity_exceeded", "reusable resource: at " + vtext(v[i].st) + " the active Use atoms need " + vtext(sum) + " but the capacity is " + cit->second.get_str());
+          viol("P4", "P4.capacity_exceeded", "reusable resource: at " + vtext(v[i].st) + " the active Use atoms need " + vtext(sum) + " but the capacity is " + vtext(cap));
       }
     }
     // the extracted timelines must tell the same story
